@@ -210,3 +210,196 @@ def empty(u: Unit):
         ch = p.st.cell(p.ex.det_parts["charge"]).fields
         u.oblige(p, "empty.zero", z3.And(zb(p.kind == "return"), D.frame_elem(p.st, ch["_array"]) == 0, ch["_frame"].info["nrows"] == 0), {}, BIN_REPLAY)
     u.cover("empty.cover", ps, lambda p: p.kind == "return")
+
+
+# ---- array -> clusters conversion (interleaving of array additions and cluster additions) ---------------------------
+MIXED_REPLAY = lambda w: {"code": """
+import numpy as np, verif_probes as VP
+VIOLATED, DETAIL = False, 'array charge converted to clusters stays in its own pixel'
+for rows, cols in ((3, 5), (6, 4), (4, 4), (2, 7)):
+    det = VP.detector(rows=rows, cols=cols)
+    ch = det.charge
+    a = np.arange(rows * cols, dtype=float).reshape(rows, cols) + 1.0
+    a[0, 0] = 0.0
+    ch.add_charge_array(a.copy())
+    k = 1
+    ch.add_charge(particle_type='e', particles_per_cluster=np.array([100.0]), init_energy=np.zeros(k), init_ver_position=np.array([0.5]), init_hor_position=np.array([1.5]),
+                  init_z_position=np.zeros(k), init_ver_velocity=np.zeros(k), init_hor_velocity=np.zeros(k), init_z_velocity=np.zeros(k))
+    want = a.copy(); want[0, 1] += 100.0
+    got = ch.array
+    if not np.array_equal(got, want):
+        VIOLATED, DETAIL = True, f'{rows}x{cols}: array then one cluster: total {got.sum()} expected {want.sum()}; differing pixels {np.argwhere(got != want)[:4].tolist()}'
+        break
+    det2 = VP.detector(rows=rows, cols=cols)
+    c2 = det2.charge
+    c2.add_charge(particle_type='e', particles_per_cluster=np.array([100.0]), init_energy=np.zeros(k), init_ver_position=np.array([0.5]), init_hor_position=np.array([1.5]),
+                  init_z_position=np.zeros(k), init_ver_velocity=np.zeros(k), init_hor_velocity=np.zeros(k), init_z_velocity=np.zeros(k))
+    c2.add_charge_array(a.copy())
+    got2 = c2.array
+    if not np.array_equal(got2, want):
+        VIOLATED, DETAIL = True, f'{rows}x{cols}: one cluster then array: total {got2.sum()} expected {want.sum()}; differing pixels {np.argwhere(got2 != want)[:4].tolist()}'
+        break
+""", "expect": "per-pixel charge = sum of everything added, whatever the interleaving of arrays and clusters"}
+
+
+@unit("C14", "array_to_df")
+def array_to_df(u: Unit):
+    """Charge.convert_array_to_df: cluster m stands for the m-th positive pixel q_m of the row-major flattened array
+    (np.where contract): its number is the pixel's charge and its position is the CENTRE of pixel (q_m // cols, q_m % cols).
+    With `mixed.centre_maps_back` and the binning contract of convert_df_to_array, converting an array to clusters and back
+    gives the same per-pixel charge (each positive pixel is enumerated exactly once: np.where contract, trusted)."""
+    fi = u.fn(f"{CH}::Charge.convert_array_to_df")
+    cfg = Cfg("real")
+    rec = {}
+    q = f"{CH}::Charge.create_charges"
+    cfg.contracts[q] = Contract(q, lambda ex, args, kwargs, fr: (rec.update(kw=dict(kwargs)), VOpaque("df", None, {"nrows": z3.Int("n_new"), "label": "new clusters"}))[1], "builds the cluster table from its columns (pandas boundary)")
+    A = z3.Function("charge_in", z3.IntSort(), z3.IntSort(), z3.RealSort())
+    gm = z3.Int("g_m")
+
+    def setup(ex):
+        rec.clear()
+        ex.st.assume(z3.And(R > 0, C_ > 0, PH > 0, PW > 0, gm >= 0))
+        ex.st.ghost.setdefault("generic", []).append((gm,))
+        arr = ex.st.alloc(HArr((R, C_), VDtype("float64"), lambda ix: VFloat(A(z_int(ix[0]), z_int(ix[1])))))
+        return [], {"array": arr, "num_rows": VInt(R), "num_cols": VInt(C_), "pixel_vertical_size": VFloat(PH), "pixel_horizontal_size": VFloat(PW)}
+    ps = u.paths(fi, setup, cfg, label="Charge.convert_array_to_df")
+    for p in ps:
+        if p.kind != "return":
+            u.oblige(p, "mixed.array_to_df.no_raise", False, {"exc": p.exc_name()}, MIXED_REPLAY)
+            continue
+        kw = rec.get("kw", {})
+        cols = {k: kw.get(k) for k in ("particles_per_cluster", "init_ver_position", "init_hor_position")}
+        if not all(p.ex.is_arr(v) for v in cols.values()):
+            u.oblige(p, "mixed.array_to_df.columns", False, {}, MIXED_REPLAY)
+            continue
+        num, ver, hor = (p.st.cell(cols[k]) for k in ("particles_per_cluster", "init_ver_position", "init_hor_position"))
+        n = z_int(num.shape[0])
+        # the m-th positive flat index, recovered from the number column's provenance: number[m] = flat[W(m)]
+        wtag = [c for c in p.st.heap.values() if isinstance(c, HArr) and c.tag and c.tag[0] == "where"]
+        if len(wtag) != 1:
+            u.oblige(p, "mixed.array_to_df.enumerates_positive_pixels", False, {}, MIXED_REPLAY)
+            continue
+        W, Mn = wtag[0].tag[1], wtag[0].tag[2]
+        qm = W(gm)
+        row, col = qm / C_, qm % C_
+        inr = z3.And(gm >= 0, gm < Mn)
+        half = z3.RealVal("1/2")
+        u.oblige(p, "mixed.array_to_df.one_cluster_per_positive_pixel", z3.And(n == Mn, z_int(ver.shape[0]) == Mn, z_int(hor.shape[0]) == Mn), {}, MIXED_REPLAY)
+        u.oblige(p, "mixed.array_to_df.number_is_the_pixel_charge", z3.Implies(inr, z3.And(to_real(num.elem((gm,))) == A(row, col), A(row, col) > 0)), {"flat_index": qm, "cols": C_, "rows": R}, MIXED_REPLAY,
+                 info={"small": [R, C_, gm]})
+        u.oblige(p, "mixed.array_to_df.position_is_the_pixel_centre", z3.Implies(inr, z3.And(to_real(ver.elem((gm,))) == (z3.ToReal(row) + half) * PH,
+                                                                                         to_real(hor.elem((gm,))) == (z3.ToReal(col) + half) * PW)),
+                 {"flat_index": qm, "cols": C_, "rows": R}, MIXED_REPLAY, info={"small": [R, C_, gm]})
+    u.cover("mixed.array_to_df.cover", ps, lambda p: p.kind == "return")
+
+
+@unit("C14", "mixed.routing")
+def mixed_routing(u: Unit):
+    """Interleavings: add_charge_array while clusters exist converts THAT array (with the detector's own rows, columns and
+    pixel sizes) and appends it to the cluster table; add_charge_dataframe on a clusterless, non-zero array first converts the
+    stored array the same way and concatenates (old first, new last); with clusters present it appends; nothing is dropped."""
+    fa, fd = u.fn(f"{CH}::Charge.add_charge_array"), u.fn(f"{CH}::Charge.add_charge_dataframe")
+    cq = f"{CH}::Charge.convert_array_to_df"
+
+    def mk_cfg():
+        cfg = D.install(Cfg("real"))
+        base_attr = cfg.lib_overrides[("opaque_attr", "df")]
+        cfg.lib_overrides[("opaque_attr", "df")] = lambda ex, obj, name, fr: VTuple([VStr("number"), VStr("position_ver")]) if name == "columns" else base_attr(ex, obj, name, fr)
+        cfg.contracts[cq] = Contract(cq, lambda ex, args, kwargs, fr: (ex.hold.setdefault("conv", []).append(dict(kwargs)), VOpaque("df", ex.st.fresh_int("df"), {"nrows": ex.st.fresh_int("n_conv"), "type": "pandas.DataFrame", "label": "converted"}))[1],
+                                    "C14.array_to_df")
+        cfg.lib_overrides["pandas.concat"] = lambda ex, f, args, kwargs, fr: (ex.hold.setdefault("concat", []).append((p_list(ex, args[0]), dict(kwargs))),
+                                                                              VOpaque("df", ex.st.fresh_int("df"), {"nrows": sum_rows(ex, args[0]), "type": "pandas.DataFrame", "label": "concat", "parts": p_list(ex, args[0])}))[1]
+        return cfg
+
+    def p_list(ex, v):
+        return list(ex.try_list(v) or [])
+
+    def sum_rows(ex, v):
+        t = z3.IntVal(0)
+        for x in p_list(ex, v):
+            t = t + z_int(x.info["nrows"])
+        return t
+
+    def geo_ok(ex, kw, arr):
+        g = ex.st.cell(ex.det_parts["geo"]).fields
+        return (kw.get("array") is arr and isinstance(kw.get("num_rows"), VInt) and z3.eq(z_int(kw["num_rows"].v), R) and isinstance(kw.get("num_cols"), VInt) and z3.eq(z_int(kw["num_cols"].v), C_)
+                and kw.get("pixel_vertical_size") is g["_pixel_vert_size"] and kw.get("pixel_horizontal_size") is g["_pixel_horz_size"])
+    rp = MIXED_REPLAY
+    # add_charge_array with clusters present
+    cfg = mk_cfg()
+    aq = f"{CH}::Charge.add_charge_dataframe"
+    cfg.contracts[aq] = Contract(aq, lambda ex, args, kwargs, fr: (ex.hold.setdefault("added", []).append(args[1] if len(args) > 1 else kwargs.get("new_charges")), NONE)[1], "C14.mixed.routing[dataframe]")
+
+    def setup_a(ex):
+        D.mk_detector(ex, u)
+        ex.hold = {}
+        st = ex.st
+        g = st.cell(ex.det_parts["geo"]).fields
+        g["_pixel_vert_size"], g["_pixel_horz_size"] = VFloat(PH), VFloat(PW)
+        st.assume(z3.And(PH > 0, PW > 0))
+        st.assume(z3.Int("n_existing") > 0)
+        st.cell(ex.det_parts["charge"]).fields["_frame"] = D.df_obj(ex, z3.Int("n_existing"))
+        ex.hold["old_array"] = st.cell(ex.det_parts["charge"]).fields["_array"]
+        a = st.alloc(HArr((R, C_), VDtype("float64"), lambda ix: VFloat(z3.Function("added", z3.IntSort(), z3.IntSort(), z3.RealSort())(z_int(ix[0]), z_int(ix[1])))))
+        ex.hold["given"] = a
+        return [ex.det_parts["charge"], a], {}
+    ps = u.paths(fa, setup_a, cfg, label="add_charge_array[clusters present]")
+    for p in ps:
+        if p.kind != "return":
+            u.oblige(p, "mixed.routing[array onto clusters].no_raise", False, {"exc": p.exc_name()}, rp)
+            continue
+        h = p.ex.hold
+        conv, added = h.get("conv", []), h.get("added", [])
+        ok = len(conv) == 1 and geo_ok(p.ex, conv[0], h["given"]) and len(added) == 1 and isinstance(added[0], VOpaque) and added[0].info.get("label") == "converted"
+        u.oblige(p, "mixed.routing[array onto clusters]", bool(ok), {}, rp)
+        u.oblige(p, "mixed.routing[array onto clusters].array_untouched", bool(p.st.cell(p.ex.det_parts["charge"]).fields["_array"] is h["old_array"]), {}, rp)
+    u.cover("mixed.routing.cover[array]", ps, lambda p: p.kind == "return")
+    # add_charge_dataframe in its three situations
+    for tag in ("no clusters, array non-zero", "no clusters, array zero", "clusters present"):
+        cfg = mk_cfg()
+
+        def setup_d(ex, tag=tag):
+            D.mk_detector(ex, u)
+            ex.hold = {}
+            st = ex.st
+            g = st.cell(ex.det_parts["geo"]).fields
+            g["_pixel_vert_size"], g["_pixel_horz_size"] = VFloat(PH), VFloat(PW)
+            st.assume(z3.And(PH > 0, PW > 0))
+            ch = st.cell(ex.det_parts["charge"]).fields
+            if tag == "clusters present":
+                st.assume(z3.Int("n_existing") > 0)
+                ch["_frame"] = D.df_obj(ex, z3.Int("n_existing"))
+            else:
+                ch["_frame"] = D.df_obj(ex, z3.IntVal(0))
+                if tag.endswith("zero") and not tag.endswith("non-zero"):
+                    ch["_array"] = arrays.const_array(ex, (R, C_), VDtype("float64"), VInt(0))
+            ex.hold["old_frame"], ex.hold["old_array"] = ch["_frame"], ch["_array"]
+            ex.hold["nextid"] = ch["nextid"]
+            new = VOpaque("df", st.fresh_int("df"), {"nrows": z3.Int("n_new"), "type": "pandas.DataFrame", "label": "new"})
+            st.assume(z3.Int("n_new") >= 0)
+            ch["columns"] = VTuple([VStr("number"), VStr("position_ver")])
+            ex.hold["new"] = new
+            return [ex.det_parts["charge"], new], {}
+        ps = u.paths(fd, setup_d, cfg, label=f"add_charge_dataframe[{tag}]")
+        for p in ps:
+            if p.kind != "return":
+                u.oblige(p, f"mixed.routing[{tag}].no_raise", False, {"exc": p.exc_name()}, rp)
+                continue
+            h = p.ex.hold
+            ch = p.st.cell(p.ex.det_parts["charge"]).fields
+            conv, cc = h.get("conv", []), h.get("concat", [])
+            frame = ch["_frame"]
+            if tag == "clusters present":
+                ok = not conv and len(cc) == 1 and len(cc[0][0]) == 2 and cc[0][0][0] is h["old_frame"] and cc[0][0][1] is h["new"] and frame.info.get("label") == "concat"
+            elif tag.endswith("non-zero"):
+                # the stored array may or may not be all zero on this path: either the conversion route or the plain route
+                if conv:
+                    ok = len(conv) == 1 and geo_ok(p.ex, conv[0], h["old_array"]) and len(cc) == 1 and len(cc[0][0]) == 2 and cc[0][0][0].info.get("label") == "converted" and cc[0][0][1] is h["new"] \
+                        and frame.info.get("label") == "concat"
+                else:
+                    ok = frame is h["new"]
+            else:
+                ok = not conv and not cc and frame is h["new"]
+            u.oblige(p, f"mixed.routing[{tag}]", bool(ok), {}, rp)
+            u.oblige(p, f"mixed.routing[{tag}].ids_advance", z_int(int_of(ch["nextid"])) == z_int(int_of(h["nextid"])) + z3.Int("n_new"), {}, rp)
+        u.cover(f"mixed.routing.cover[{tag}]", ps, lambda p: p.kind == "return")
